@@ -193,3 +193,10 @@ def run(ck, prog, tier, load):
         ok, wit = presp.must_pass_after(e_, ends, marks)
         ck.ob("C06.finished-marked-at-end-of-body", "poll_response|%s" % ("SendPayload" if i == 0 else "SendErrorPayload"), ok, presp, e_,
               "after the last chunk of a response body FINISHED is set (or a close was started) on every path: the keep-alive timer is armed only for KEEP_ALIVE | FINISHED", witness=presp.path_lines(wit))
+    # every connection is given the configured graceful-shutdown signal, whatever else is configured: a dispatcher that
+    # never sees the signal never sets DRAINING and keeps starting queued requests
+    for b in prog.find(r"^actix_http::config::ServiceConfig::graceful_shutdown$"):
+        rets = list(b.ret_exprs())
+        ok = bool(rets) and all(e_has_field(e, r"graceful_shutdown_signal$") and not is_agg(e, r"Option::None$") for bb, e in rets)
+        ck.ob("C06.signal-handed-to-every-connection", "ServiceConfig::graceful_shutdown", ok, b, rets[0][0] if rets else None,
+              "graceful_shutdown() derives from the configured signal on every path (no configuration short-circuits it to None)")
